@@ -29,6 +29,10 @@ PROP = dict(
          'weights in append order), and the answers of OpeningBook.GetMove / OpeningPlayer.GetMove (stub inner player) to batches of '
          'queries (prefix positions of the lines in all 8 images, line ends, off-book positions) drawn from ONE scripted rand.Source per '
          'batch (all-zero, small, mixed, uniform Int31 values; the model reproduces Int31n from the recorded values). '
+         'RAND = the randomised MinimaxAI.GetMove against the model coq/SearchRand.v (Analyze + the choice among the root moves): fresh engines on '
+         '3x3/4x4 positions, depth 1-3, NoSort, tables none..2048 entries, null move / slide reduction / multi-cut on and off, both evaluators, '
+         'RandomizeWindow 1..2^20, RandomizeScale 1 (2, 3, 7 for precise table-less engines), the first 400 values of rand.NewSource(Cfg.Seed) written '
+         'into the case; compared: the returned move (or PANIC). '
          'non-trivial = all; distinct = distinct input strings',
     assumptions=['alpha-beta budgets allow at least the depth-1 iteration (a deadline run that was cancelled before is counted, not judged)',
                  'Monte-Carlo limit allows at least one playout (a run with a limit < 100 ms that did none is repeated once with 400 ms)',
@@ -73,7 +77,7 @@ MANIFEST = dict(
     ref='5.4', technique='independent Go oracle (rules + replay) over players x configurations + Coq invariant proofs + model/implementation differential on legality, MCTS passes and the opening book',
     note="Partial on the proof side: Analyze's first move is proved legal on the executed model (larger boards under the side condition withinP: "
          "C01's 64-stack limit along the searched tree; the model's loops take the node's own move count as fuel, so no bound on the number of generated moves is assumed); GetMove's randomised choice and "
-         "AnalyzeAll are proved on the executed model Search.v + SearchRand.v (SearchRand.v itself is hand-transcribed and not yet executed against the code: the check exercises the real randomised GetMove through the oracle only); whole-PV replay is proved for precise configurations without a table and covered by the oracle only otherwise; MCTS no-panic assumes evaluator totality and <= 64 pieces; "
+         "AnalyzeAll are proved on the executed model Search.v + SearchRand.v (SearchRand.v is executed against the real GetMove on every run: CASE RAND lines, the random draws taken from the configured seed's source); whole-PV replay is proved for precise configurations without a table and covered by the oracle only otherwise; MCTS no-panic assumes evaluator totality and <= 64 pieces; "
          "opening book: 'GetMove never panics' is proved for books below 2^28 words (C04_opening_book_get_move_no_panic; beyond it rand.Int31n's argument wraps, in the code as in the model); "
          "NoCollisionOn and reserves_match_board / opening_consistent of the queried position are explicit hypotheses (a position with "
          "non-default piece counts can share a book position's hash and squares without sharing its legal moves). Found and repaired through "
